@@ -43,8 +43,9 @@ def horner_hook(it, body, args):
     """polevl / p1evl: Horner evaluation over a constant table.  At an argument with real part exactly 0 the value is the
     last coefficient (proved summary: acc*0 + c = c in every step); the derivative parts are finite combinations of finite
     quantities when the argument's parts are finite."""
-    if body.get("name") in ("polevl", "p1evl") and body["path"].startswith("bessel::"):
-        x, coef = unref(args[0]), unref(args[1])
+    hc = horner_call(it.F, body, args)
+    if hc is not None:
+        x, coef = hc[1], Tup(list(hc[2]))
         if isinstance(coef, Tup) and coef.vs:
             last = unref(coef.vs[-1])
             if isinstance(x, Rec):
@@ -97,6 +98,11 @@ def run(tier):
         bessel_at_zero(chk, F, ty)
     float_special(chk, F)
     values_at_special_points(chk, F)
+    # integer powers at zero are also reached as products (`x * x * x`, Product over an iterator): every operator / iterator form of the
+    # arithmetic is the truncated-algebra operation on every path — a shortcut on a zero real part must not drop derivative parts (C08 rules)
+    from . import c08
+    for ty in TYPES:
+        c08.check_type(chk, F, ty, thorough=False)
     chk.floor("special-point evaluations", chk.analysed.get("special-point evaluations", 0), 8 * 15)
     return chk.finish()
 
